@@ -35,6 +35,8 @@ pub enum BadCtor {
     Nested { shapes: Vec<Vec<usize>> },
     /// zeros constructor with a zero dimension
     ZerosZeroDim { dims: Vec<usize> },
+    /// the public shared-buffer constructor `From<(Vec<usize>, Rc<Vec<Float>>)>` with `values` values
+    SharedBuffer { dims: Vec<usize>, values: usize },
 }
 
 /// build by nesting `From<Vec<Array>>` down to rank-1 arrays; `use_macro` goes through `arr!`
@@ -105,6 +107,9 @@ fn run_construct(dims: &[usize], vals: &[f64]) -> Result<(), (String, String)> {
     let n = numel(dims);
     let a = guarded(|| arr(dims, vals)).map_err(|p| e("unexpected-panic:from-dims-values", format!("Array::from(({:?}, values)) panicked: {}", dims, p)))?;
     check_layout("From<(dims, values)>", &a, dims, vals).map_err(|d| e("layout:from-dims-values", d))?;
+    // shared buffer
+    let sb = guarded(|| Array::from((dims.to_vec(), std::rc::Rc::new(fls(vals))))).map_err(|p| e("unexpected-panic:from-shared-buffer", format!("Array::from(({:?}, Rc<values>)) panicked: {}", dims, p)))?;
+    check_layout("From<(dims, Rc<values>)>", &sb, dims, vals).map_err(|d| e("layout:from-shared-buffer", d))?;
     // flat vector
     let f = guarded(|| Array::from(fls(vals))).map_err(|p| e("unexpected-panic:from-vec", format!("Array::from(values) panicked: {}", p)))?;
     check_layout("From<Vec<Float>>", &f, &[n], vals).map_err(|d| e("layout:from-vec", d))?;
@@ -260,6 +265,11 @@ fn run_refuse(b: &BadCtor) -> Result<(), (String, String)> {
                 return Err(e("not-refused:count-mismatch", format!("Array::from(({:?}, {} values)) must panic but returned dims {:?}", dims, values, a.dimensions())));
             }
         }
+        BadCtor::SharedBuffer { dims, values } => {
+            if let Ok(a) = guarded(|| Array::from((dims.clone(), std::rc::Rc::new(vec![1.0 as Float; *values])))) {
+                return Err(e("not-refused:shared-buffer-constructor", format!("Array::from(({:?}, Rc<{} values>)) must panic but returned dims {:?}", dims, values, a.dimensions())));
+            }
+        }
         BadCtor::Nested { shapes } => {
             let r = guarded(|| {
                 let parts: Vec<Array> = shapes.iter().map(|s| arr(s, &iota(numel(s), 1.0, 1.0))).collect();
@@ -352,7 +362,8 @@ fn refusals(shapes: &[Vec<usize>]) -> Vec<BadCtor> {
             let mut z = s.clone();
             z[p] = 0;
             out.push(BadCtor::ZeroDim { dims: z.clone() });
-            out.push(BadCtor::ZerosZeroDim { dims: z });
+            out.push(BadCtor::ZerosZeroDim { dims: z.clone() });
+            out.push(BadCtor::SharedBuffer { dims: z, values: 0 });
         }
         let n = numel(s);
         out.push(BadCtor::CountMismatch { dims: s.clone(), values: n + 1 });
@@ -361,6 +372,8 @@ fn refusals(shapes: &[Vec<usize>]) -> Vec<BadCtor> {
         }
         out.push(BadCtor::CountMismatch { dims: s.clone(), values: 0 });
         out.push(BadCtor::CountMismatch { dims: s.clone(), values: n * 2 });
+        out.push(BadCtor::SharedBuffer { dims: s.clone(), values: n + 1 });
+        out.push(BadCtor::SharedBuffer { dims: s.clone(), values: 0 });
         // nested arrays: one element has another shape (different size, different rank, trailing/leading unit dimension)
         if s.len() <= 3 {
             let mut variants: Vec<Vec<usize>> = vec![];
